@@ -20,3 +20,103 @@ package initializer
 //@   assert [C20:new-source-named-after-repository] !(xpkg.ParsePackageSourceFromReference($ref) in pkgMap) ==> $n == xpkg.ToDNSLabel($ref.Context().RepositoryStr())
 //@ site (v1.Package).SetSource(_, $s)
 //@   assert [C20:source-is-the-requested-image] $s == $ref.String()
+
+// C20 (TLS): an existing complete CA and existing server/client certificates are never
+// regenerated or overwritten; a certificate is signed by the CA that was loaded or generated
+// in this run, carries the configured DNS names, and its secret records that CA.
+
+//@ func (*initializer.TLSCertificateGenerator).loadOrGenerateCA
+//@ props C20
+//@ ghost found bool = false
+//@ site (client.Reader).Get(_, _, _, $obj)
+//@   update found = err == nil
+//@   bind $key = as($obj, *corev1.Secret).Data["tls.key"]
+//@   bind $crt = as($obj, *corev1.Secret).Data["tls.crt"]
+//@ site (initializer.CertificateGenerator).Generate(_, $tmpl, $signer)
+//@   assert [C20:complete-ca-not-regenerated] !(found && len($key) != 0 && len($crt) != 0)
+//@ optional site (client.Writer).Create(_, _, $o)
+//@   assert [C20:ca-created-only-if-absent] !found
+//@ optional site (client.Writer).Update(_, _, $o)
+//@   assert [C20:complete-ca-not-overwritten] found && !(len($key) != 0 && len($crt) != 0)
+
+//@ func (*initializer.TLSCertificateGenerator).ensureServerCertificate
+//@ props C20
+//@ ghost found bool = false
+//@ site (client.Reader).Get(_, _, _, $obj)
+//@   update found = err == nil
+//@   bind $key = as($obj, *corev1.Secret).Data["tls.key"]
+//@   bind $crt = as($obj, *corev1.Secret).Data["tls.crt"]
+//@   bind $ca = as($obj, *corev1.Secret).Data["ca.crt"]
+//@ site (initializer.CertificateGenerator).Generate(_, $tmpl, $s)
+//@   assert [C20:existing-server-cert-not-regenerated] !(found && (len($key) != 0 || len($crt) != 0 || len($ca) != 0))
+//@   assert [C20:server-cert-signed-by-given-ca] $s == signer
+//@   assert [C20:server-cert-has-configured-dns-names] $tmpl.DNSNames == e.tlsServerDNSNames && len($tmpl.DNSNames) != 0
+//@ optional site (client.Writer).Create(_, _, $o)
+//@   assert [C20:server-secret-created-only-if-absent] !found
+//@   assert [C20:server-secret-records-its-ca] sec.Data["ca.crt"] == signer.certificatePEM
+//@ optional site (client.Writer).Update(_, _, $o)
+//@   assert [C20:existing-server-cert-not-overwritten] found && !(len($key) != 0 || len($crt) != 0 || len($ca) != 0)
+//@   assert [C20:server-secret-records-its-ca] sec.Data["ca.crt"] == signer.certificatePEM
+
+//@ func (*initializer.TLSCertificateGenerator).ensureClientCertificate
+//@ props C20
+//@ ghost found bool = false
+//@ site (client.Reader).Get(_, _, _, $obj)
+//@   update found = err == nil
+//@   bind $key = as($obj, *corev1.Secret).Data["tls.key"]
+//@   bind $crt = as($obj, *corev1.Secret).Data["tls.crt"]
+//@   bind $ca = as($obj, *corev1.Secret).Data["ca.crt"]
+//@ site (initializer.CertificateGenerator).Generate(_, $tmpl, $s)
+//@   assert [C20:existing-client-cert-not-regenerated] !(found && (len($key) != 0 || len($crt) != 0 || len($ca) != 0))
+//@   assert [C20:client-cert-signed-by-given-ca] $s == signer
+//@   assert [C20:client-cert-has-configured-dns-names] $tmpl.DNSNames == e.tlsClientDNSNames && len($tmpl.DNSNames) != 0
+//@ optional site (client.Writer).Create(_, _, $o)
+//@   assert [C20:client-secret-created-only-if-absent] !found
+//@   assert [C20:client-secret-records-its-ca] sec.Data["ca.crt"] == signer.certificatePEM
+//@ optional site (client.Writer).Update(_, _, $o)
+//@   assert [C20:existing-client-cert-not-overwritten] found && !(len($key) != 0 || len($crt) != 0 || len($ca) != 0)
+//@   assert [C20:client-secret-records-its-ca] sec.Data["ca.crt"] == signer.certificatePEM
+
+//@ func (*initializer.TLSCertificateGenerator).Run
+//@ props C20
+//@ let $signer = result (*initializer.TLSCertificateGenerator).loadOrGenerateCA
+//@ optional site (*initializer.TLSCertificateGenerator).ensureServerCertificate(_, _, _, _, $s)
+//@   assert [C20:server-cert-uses-this-runs-ca] $s == $signer
+//@ optional site (*initializer.TLSCertificateGenerator).ensureClientCertificate(_, _, _, _, $s)
+//@   assert [C20:client-cert-uses-this-runs-ca] $s == $signer
+
+//@ func initializer.DNSNamesForService
+//@ props C20
+//@ frame fresh-only
+//@ ensures [C20:dns-names-cover-the-service] len(result) == 3 && result[0] == service && result[1] == service + "." + namespace && result[2] == service + "." + namespace + ".svc"
+
+// C20 (create-if-absent steps): the default StoreConfig and DeploymentRuntimeConfig are only
+// ever created, never updated or patched, so an existing object is never touched; the Lock is
+// applied with an empty package list (a merge patch cannot clobber recorded packages).
+
+//@ func (*initializer.StoreConfigObject).Run
+//@ props C20
+//@ site (client.Writer).Create(_, _, $o)
+//@   assert [C20:creates-the-default-store-config] as($o, *scv1alpha1.StoreConfig).Name == "default"
+//@ optional site (client.Writer).Update(_, _, _)
+//@   assert [C20:store-config-never-updated] false
+//@ optional site (client.Writer).Patch(_, _, _, _)
+//@   assert [C20:store-config-never-patched] false
+//@ optional site (resource.Applicator).Apply(_, _, _)
+//@   assert [C20:store-config-never-applied] false
+//@ ensures [C20:at-most-one-write] writes <= old(writes) + 1
+
+//@ func initializer.DefaultDeploymentRuntimeConfig
+//@ props C20
+//@ optional site (client.Writer).Update(_, _, _)
+//@   assert [C20:runtime-config-never-updated] false
+//@ optional site (client.Writer).Patch(_, _, _, _)
+//@   assert [C20:runtime-config-never-patched] false
+//@ optional site (resource.Applicator).Apply(_, _, _)
+//@   assert [C20:runtime-config-never-applied] false
+//@ ensures [C20:at-most-one-write] writes <= old(writes) + 1
+
+//@ func (*initializer.LockObject).Run
+//@ props C20
+//@ site (*resource.APIPatchingApplicator).Apply(_, _, $o)
+//@   assert [C20:lock-applied-without-packages] as($o, *v1beta1.Lock).Name == "lock" && len(as($o, *v1beta1.Lock).Packages) == 0
